@@ -310,7 +310,10 @@ class Prop(Check):
     ID = "C24"
     LEAN_MODULE = "TextxVerif.Props.C24"
     THEOREMS = ["Rec.C24_bisim_sound", "Rec.C24_accept_iff", "Rec.C24_not_both", "Rec.C24_tables", "Rec.C24_check",
-                "Rec.C24_agree_partial", "Rec.C24_sep_forms_differ"]
+                "Rec.C24_agree_partial", "Rec.C24_sep_forms_differ",
+                "Rec.C24_bisim_sound_sep", "Rec.C24_accept_iff_sep", "Rec.C24_check_tx", "Rec.C24_unsep_agree",
+                "Rec.C24_agree_tx_partial", "Rec.C24_notrail_scan", "Rec.C24_notrail_table", "Rec.C24_lexok_table",
+                "Rec.C24_notrail_needed", "Rec.C24_accepts_example", "Rec.C24_trailing_example"]
     DRIVER = "Drivers/Rec.lean"
     QUICK_CASES = 200
     THOROUGH_CASES = 6000
@@ -450,9 +453,14 @@ class Prop(Check):
             return f"lang.py parser {'accepts' if d else 'rejects'} but the recogniser on the generated lang graph says {out['lang']}"
         if t is not None and obs["tx"].get("other") is None and out["tx"] != want[t]:
             return f"textx.tx parser {'accepts' if t else 'rejects'} but the recogniser on the generated tx graph says {out['tx']}"
+        nt = out.get("notrail")
+        if not isinstance(nt, list) or any(h not in ("ends", "scan", "no") for h in nt):
+            return f"model: driver did not evaluate the NoTrailingSep hypothesis: {nt}"
         if out["txo"] != out["tx"]:
+            covered = "no" not in nt
             return (f"unproved pair: tx gives {out['tx']} but the (x sep)* x formulation gives {out['txo']} "
-                    "(RREL separator repetitions are not equivalent in this context)")
+                    + ("although NoTrailingSep holds (contradicts theorem C24_unsep_agree: model bug)" if covered else
+                       "(trailing RREL separator: the two formulations are not equivalent in this context)"))
         if not out["lexok"]:
             return "lexer hypotheses of C24_agree_partial do not hold on the token tables of this text"
         return None
@@ -523,6 +531,8 @@ class Prop(Check):
     def extra_evidence(self, cases, obs, outs):
         acc = rej = 0
         agree = lexok = n = 0
+        nt_hold = nt_hold_acc = nt_false = nt_false_acc = 0
+        nt_how = {"ends": 0, "scan": 0, "no": 0}
         for c, o, m in zip(cases, obs, outs):
             if not isinstance(o, dict) or "compiler" not in o:
                 continue
@@ -534,9 +544,22 @@ class Prop(Check):
             if m and "tx" in m:
                 agree += m["tx"] == m["txo"]
                 lexok += bool(m["lexok"])
+                nt = m.get("notrail") or []
+                for h in nt:
+                    nt_how[h] = nt_how.get(h, 0) + 1
+                if "no" in nt:
+                    nt_false += 1
+                    nt_false_acc += m["tx"] == "ok"
+                else:
+                    nt_hold += 1
+                    nt_hold_acc += m["tx"] == "ok"
         info = _CACHE.get("info") or {}
         lh = next((o["lexhyp"] for o in obs if isinstance(o, dict) and "lexhyp" in o), None)
         return {"texts": n, "accepted": acc, "rejected": rej, "txo_vs_tx_agree": agree, "lexer_hypotheses_hold": lexok,
+                # hypothesis of C24_agree_tx_partial (all positions): texts on which the theorem speaks about tx itself
+                "notrailingsep_holds": nt_hold, "notrailingsep_holds_accepted": nt_hold_acc,
+                "notrailingsep_false": nt_false, "notrailingsep_false_accepted": nt_false_acc,
+                "notrailingsep_how": nt_how,
                 "lexer_hypotheses_exhaustive": lh,
                 "unproved_pairs": [{"tx_node": i, "rule": (info["tx"]["nodes"][i].get("rule") if info else None)}
                                    for i in info.get("unproved", [])],
